@@ -36,6 +36,31 @@ txt = (f"{n} seeds; **{det_t} detected by the check of the property they target*
        f"{n - det_t - det_o} missed.\n\n| seed | file | change | detected by | rule(s) |\n|---|---|---|---|---|\n" + "\n".join(rows) + "\n")
 p = os.path.join(root, "DESIGN.md")
 s = open(p).read()
-s = re.sub(r"<!-- SEED-MATRIX-BEGIN -->.*<!-- SEED-MATRIX-END -->", "<!-- SEED-MATRIX-BEGIN -->\n" + txt + "<!-- SEED-MATRIX-END -->", s, flags=re.S)
+s = re.sub(r"<!-- SEED-MATRIX-BEGIN -->.*<!-- SEED-MATRIX-END -->", lambda m: "<!-- SEED-MATRIX-BEGIN -->\n" + txt + "<!-- SEED-MATRIX-END -->", s, flags=re.S)
+# rule inventory: rule -> properties, instances found on today's tree (from the committed evidence), one-line doc
+import sys
+sys.path.insert(0, root)
+from sa.rules import REGISTRY
+by = {}
+for prop, lst in REGISTRY.items():
+    for rid, fn, doc in lst:
+        by.setdefault(rid, [[], doc])[0].append(prop)
+counts = {}
+for prop in REGISTRY:
+    ev = os.path.join(root, "evidence", f"{prop}.json")
+    if os.path.exists(ev):
+        for rid, c in (json.load(open(ev))["coverage"].get("by_rule") or {}).items():
+            counts[rid] = c
+rrows = []
+for rid in sorted(by):
+    props, doc = by[rid]
+    c = counts.get(rid, {})
+    head = doc.split(":")[0] if ":" in doc[:60] else ""
+    first = re.split(r"(?<=[a-z\)])[.;] ", doc)[0][:170]
+    rrows.append(f"| {rid} | {', '.join(sorted(props))} | {c.get('ok', 0)} / {c.get('exempt', 0)} / {c.get('violation', 0)} | {first} |")
+rtxt = (f"{len(by)} rules. Columns: properties whose check runs the rule; instances on today's tree as ok / reasoned exception / "
+        "matched known finding; first sentence of the rule's own doc string (the full text is printed in the evidence).\n\n"
+        "| rule | properties | ok / exc / KF | statement |\n|---|---|---|---|\n" + "\n".join(rrows) + "\n")
+s = re.sub(r"<!-- RULE-TABLE-BEGIN -->.*<!-- RULE-TABLE-END -->", lambda m: "<!-- RULE-TABLE-BEGIN -->\n" + rtxt + "<!-- RULE-TABLE-END -->", s, flags=re.S)
 open(p, "w").write(s)
-print(f"seeds={n} by_target={det_t} by_other={det_o}")
+print(f"seeds={n} by_target={det_t} by_other={det_o} rules={len(by)}")
